@@ -1,5 +1,5 @@
 PROP = {
-    "lean_modules": ["GunYu.Props.C08", "GunYu.Props.C08Faults", "GunYu.Props.C08Verify", "GunYu.Props.C08Root", "GunYu.Props.C08Commit", "GunYu.Props.C08Open"],
+    "lean_modules": ["GunYu.Props.C08", "GunYu.Props.C08Faults", "GunYu.Props.C08Verify", "GunYu.Props.C08Root", "GunYu.Props.C08Commit", "GunYu.Props.C08Open", "GunYu.Props.C08Snap"],
     "audit_namespaces": ["GunYu.Props.C08"],
     "required_theorems": [
         "GunYu.Props.C08.reopen_range_contiguous",
@@ -68,6 +68,12 @@ PROP = {
         # a stream writer left open across SetRunId / DelRunId (Props/C08Open.lean)
         "GunYu.Props.C08.open_writer_switch_crash_true",
         "GunYu.Props.C08.open_writer_del_crash_true",
+        # verification of a cached snapshot file (Props/C08Snap.lean; seeded round 8)
+        "GunYu.Props.C08.altered_snapshot_never_served",
+        "GunYu.Props.C08.altered_snapshot_accepted_iff",
+        "GunYu.Props.C08.zero_trailer_refused",
+        "GunYu.Props.C08.altered_payload_accepted_iff",
+        "GunYu.Props.C08.footered_verifies",
     ],
     "expected_facts": {"crc64tab_len": 256},
     "harness": [
@@ -199,6 +205,13 @@ PROP = {
         "bytes — the length part of SnapOk for the offered snapshot is a theorem now), wrong_size_snapshot_not_offered. STILL outside: lost pages INSIDE a full-length snapshot file (only the optional CRC footer "
         "detects them, with verification on), power-loss reordering of stream segment writes; SnapOk stays a hypothesis of resume_* / root_* for committed names that are NOT offered (the invariant speaks of all of them); "
         "the wrong-sized file is not unlinked (it goes with the next reset)",
+        "SNAPSHOT verification (session 5, seeded round 8 missed by the committed check): RdbReader.checkHeader = StoreFs.rdbFooterOk (files of at most 8 bytes pass; else the last 8 bytes are the CRC64 of the payload AND not "
+        "zero); altered_snapshot_never_served (ANY image, verification on: what a snapshot reader delivers is a right-length file that passes the check), altered_snapshot_accepted_iff / altered_payload_accepted_iff (accepted iff "
+        "the trailer is non-zero and the CRC64 of the payload: a collision, as for segments), zero_trailer_refused (/repo 98e548e, found by the new alterations on the UNCHANGED tree: the CRC64 of an all-zero payload is zero, a "
+        "right-length file reading back as zeros passed). Tie: every footer-carrying snapshot of the final image is re-opened with verification after: a data bit, a bit in the last piece, a footer bit, the trailer zeroed, "
+        "a random tail zeroed, the last 4096-byte block zeroed, everything zeroed (monitors altered-snapshot-accepted, snapshot-bytes-wrong; compared with the model). NOT covered: snapshots of at most 8 bytes and snapshots "
+        "the source sent WITHOUT a valid footer (rdbchecksum no) are refused by every verifying reader, as the code does — verification on makes such a cache useless, an availability matter outside the property; a reader "
+        "already open when the file is altered is not re-verified",
         "the literal syscall list is compared with the model: a rewrite that coalesces or splits writes, opens with other flags or writes the header with pwrite gives a DIFF (tie failure), not a violation; "
         "the crash images themselves are always built from the syscalls that really occurred",
         "crc_mismatch_refused for arbitrary alterations is 'refused unless length equal and CRC64 collides' (altered_data_accepted_iff); "
